@@ -435,7 +435,7 @@ int main(int argc, char **argv) {
       "i8 {-128,k,127}, u16 {0,1+k,65535}; ALL assignments are enumerated for one track with frames*components <= 4 (quick) / frames,components <= 3 "
       "(thorough); larger shapes use the 27 structured assignments digit(i,j) = (a*i+b*j+c0) mod 3; multi-track spaces use per-track patterns "
       "(a,b,c0) = ((v+k+1)%3,(k+1)%3,k%3)",
-      "t3_full ties the timestamp mode and the value variant v to the speed digit (speed 0: increasing/v0, 5: equal/v1, 10: decreasing/v2); the 10^4-frame "
+      "t1_all_f3_c3 (19683 assignments) ties the timestamp mode (and call order = mode % 2) to the speed digit; t3_full (3 frames) ties the timestamp mode and the value variant v to the speed digit (speed 0: increasing/v0, 5: equal/v1, 10: decreasing/v2); the 10^4-frame "
       "family rotates type/components/quantization over the track index",
       "int32 values are kept moderate on purpose: |v| >= 2^30 runs into the symbol-coding defects decided by C08/C16",
       "quantization is requested only for track ids, never for the timestamp attribute (the property wants timestamps bit-exact); a quantization "
@@ -462,9 +462,13 @@ int main(int argc, char **argv) {
       const bool mid = f <= 3 && cc <= 3;
       if (!small && !mid) continue;
       const uint64_t nv = ipow(3, f * cc);
-      add(R, "t1_all_f" + std::to_string(f) + "_c" + std::to_string(cc), nv * 5 * 3 * 3 * 3 * 2, small, true, [=](uint64_t idx) {
+      // the 3x3 shape (19683 assignments) ties timestamp mode and call order to the speed digit to stay inside the budget
+      const bool tied = f * cc == 9;
+      add(R, "t1_all_f" + std::to_string(f) + "_c" + std::to_string(cc), nv * 5 * 3 * 3 * (tied ? 1 : 3 * 2), small, true, [=](uint64_t idx) {
         mc::Radix rx{nv, 5, 3, 3, 3, 2};
+        if (tied) rx = mc::Radix{nv, 5, 3, 3};
         auto d = rx.decode(idx);
+        if (tied) { d.push_back(d[3]); d.push_back(d[3] % 2); }
         Case c;
         c.frames = f;
         Track t;
@@ -544,11 +548,11 @@ int main(int argc, char **argv) {
     return c;
   });
   // thorough: every (type, components, quantization) triple
-  add(R, "t3_full", 216000ull * 2 * 3 * 2, false, true, [](uint64_t idx) {
-    mc::Radix rx{60, 60, 60, 2, 3, 2};
+  add(R, "t3_full", 216000ull * 1 * 3 * 2, false, true, [](uint64_t idx) {
+    mc::Radix rx{60, 60, 60, 1, 3, 2};
     auto d = rx.decode(idx);
     Case c;
-    c.frames = int(d[3]) + 2;  // 2 or 3 frames (1 and 4 frames: t1_*, t2_full)
+    c.frames = int(d[3]) + 3;  // 3 frames (1, 2 and 4 frames: t1_*, t2_full)
     for (int k = 0; k < 3; ++k) {
       Track t;
       const int x = int(d[k]);
